@@ -53,9 +53,9 @@ func Run(c *hx.Ctx) {
 			dispatch(c, Input{Kind: kind, Seed: c.Rng.Int63(), Size: size})
 		}
 	}
-	many("logs", c.N(150, 1500), 0)
+	many("logs", c.N(80, 1500), 0)
 	many("keys", c.N(40, 300), 0)
-	many("comp", c.N(120, 1500), 0)
+	many("comp", c.N(80, 1200), 0)
 	many("index", c.N(2, 8), c.N(30, 60))
 	many("hist-mainnet-genesis", c.N(2, 6), 0)
 	many("hist-unaligned", c.N(3, 8), 0)
